@@ -167,7 +167,9 @@ func (h *hx) try(r req) srvRes {
 	if hdr == "" {
 		hdr = stdHeader(r.items)
 	}
-	return h.serverStep(r.srv, r.host, r.now, hdr, r.items, r.tag)
+	res := h.serverStep(r.srv, r.host, r.now, hdr, r.items, r.tag)
+	h.e2eStep(r.srv, r.host, r.now, hdr, r.items, r.tag)
+	return res
 }
 
 func (h *hx) pv(t sym.Term) sym.PVal {
@@ -248,6 +250,9 @@ func TestVerifC19HS(t *testing.T) {
 	h.bytesLevel(rounds)
 	for r := 0; r < rounds; r++ {
 		h.round(r)
+	}
+	if VerifE2EClose != nil {
+		VerifE2EClose()
 	}
 	for typ, n := range w.Malleable {
 		out.CoverN(fmt.Sprintf("altered_signature_bytes_still_verify_keytype_%d", typ), int64(n))
